@@ -1,6 +1,7 @@
 """Models of the externals the IR calls: allocation, C++ runtime, intrinsics, the vp_* harness API."""
 import re
 from .term import *
+from .term import show
 from . import ir
 from .machine import Unsupported, EXC_TYPE_STD, Alloc
 
@@ -152,7 +153,9 @@ def _lens(m, n, g):
     vs = get_vs(n)
     if vs is None:
         pv = possible_values(n, 64, 64, m.ranges)
-        if pv is None: raise Unsupported('symbolic mem* length')
+        if pv is None:
+            if not m.tolerant: m.defer_unsupported(g, 'symbolic mem* length %s in %s' % (show(n, 6)[:300], m.where()))
+            return []
         return [(k, Cmp('eq', n, k, 64)) for k in sorted(pv)]
     return sorted(vs.items())
 
@@ -281,8 +284,9 @@ def vp(m, name, args, g, I):
             v0 = var('nd_%d' % i, w)
             v = m.nondets[i] = ZExt(v0, w, 64) if w < 64 else v0
             m.ranges['nd_%d' % i] = (0, (1 << w) - 1)
-            if lo > 0: m.assume(Cmp('ule', lo, v0, w))
-            if hi < (1 << w) - 1: m.assume(Cmp('ule', v0, hi, w))
+            # input ranges constrain the inputs themselves, not a path: they hold for every obligation
+            if lo > 0: m.gassumptions.append(Cmp('ule', lo, v0, w))
+            if hi < (1 << w) - 1: m.gassumptions.append(Cmp('ule', v0, hi, w))
         return g, v, False
     if name == 'vp_assume':
         eg, key = m.vis(g)
